@@ -20,6 +20,7 @@ macro_rules! dispatch {
             "C04" => $f::<props::c04::C04>($($arg),*),
             "C05" => $f::<props::c05::C05>($($arg),*),
             "C06" => $f::<props::c06::C06>($($arg),*),
+            "C07" => $f::<props::c07::C07>($($arg),*),
             "C14" => $f::<props::c14::C14>($($arg),*),
             "C17" => $f::<props::c17::C17>($($arg),*),
             "C18" => $f::<props::c18::C18>($($arg),*),
